@@ -120,6 +120,10 @@ func (g *genState) freshValueKind() Kind {
 func (g *genState) ctx() int {
 	if g.ctxT < 0 {
 		g.ctxT = g.newType(KCtx)
+		if g.r.Chance(1, 6) {
+			// the package spells the context through its own alias (type CtxAlias = context.Context)
+			g.sp.Types[g.ctxT].Name = "CtxAlias"
+		}
 	}
 	return g.ctxT
 }
@@ -389,12 +393,18 @@ func genOnce(r *Rand, pkg string, prof Profile) *Spec {
 		}
 		p := Provider{Name: fmt.Sprintf("P%d", len(g.sp.Providers)), Form: "func"}
 		p.In = g.pickInputs(k, recency)
+		ctxAliasAware := false
 		if r.Intn(12) < ctxP {
 			pos := r.Intn(len(p.In) + 1)
 			p.In = append(p.In[:pos], append([]int{g.ctx()}, p.In[pos:]...)...)
 			p.CtxAware = r.Chance(2, 3)
 			if prof.CtxOdds > 0 {
 				p.CtxAware = r.Chance(1, 2)
+			}
+			if g.sp.Types[g.ctx()].Expr() != "context.Context" {
+				// a package that spells the context through an alias is a package of context-aware services
+				p.CtxAware = r.Chance(3, 4)
+				ctxAliasAware = p.CtxAware
 			}
 		}
 		nOut := 1
@@ -435,6 +445,9 @@ func genOnce(r *Rand, pkg string, prof Profile) *Spec {
 			p.Out[0] = it // the type drawn first stays declared and unused
 		}
 		p.Fallible = r.Intn(6) < fallP
+		if ctxAliasAware && !prof.NoFallible && r.Chance(1, 2) {
+			p.Fallible = true // it reports ctx.Err() when its context is cancelled
+		}
 		p.ErrAlias = p.Fallible && r.Chance(1, 7)
 		if r.Chance(1, 8) {
 			p.Form = "lit"
@@ -666,6 +679,58 @@ func genOnce(r *Rand, pkg string, prof Profile) *Spec {
 			best = cands[r.Intn(len(cands))]
 		}
 		return best
+	}
+
+	// now and then one constructor is enormous: more than 64 parameters, most of them plain
+	// injector arguments, its real dependencies last
+	if r.Chance(1, 16) && !prof.AdversarialNames {
+		made := map[int]bool{}
+		for pi := range g.sp.Providers {
+			for _, o := range g.sp.Providers[pi].Out {
+				made[o] = true
+			}
+		}
+		// how many providers deep a produced type is (providers are listed in dependency order)
+		depth := map[int]int{}
+		for pi := range g.sp.Providers {
+			d := 1
+			for _, in := range g.sp.Providers[pi].In {
+				if depth[in]+1 > d {
+					d = depth[in] + 1
+				}
+			}
+			for _, o := range g.sp.Providers[pi].Out {
+				depth[o] = d
+			}
+		}
+		var cands, deep []int
+		for pi := range g.sp.Providers {
+			p := &g.sp.Providers[pi]
+			if p.Form != "func" || len(p.In) < 1 || len(p.In) > 6 {
+				continue
+			}
+			for _, in := range p.In {
+				if made[in] { // it really waits for another provider
+					cands = append(cands, pi)
+					if depth[in] >= 2 { // and that provider waits for one itself
+						deep = append(deep, pi)
+					}
+					break
+				}
+			}
+		}
+		if len(deep) > 0 {
+			cands = deep
+		}
+		if len(cands) > 0 {
+			pi := cands[r.Intn(len(cands))]
+			var pre []int
+			for j, n := 0, 64+r.Intn(3); j < n; j++ {
+				pre = append(pre, g.newType([]Kind{KStr, KInt, KVal}[r.Intn(3)]))
+			}
+			g.sp.Providers[pi].In = append(pre, g.sp.Providers[pi].In...)
+			g.sp.Wide = true
+		}
 	}
 
 	nInj := 1
